@@ -1,6 +1,6 @@
 PROPERTY = 'C09'
 def thr(fn, n): return {fn: ['a', 'b', 'c'][:n], 'vp_thr_drain': ['']}
-IMM = [r'S_class_tbb__detail__d2__concurrent_queue\*\)v_\d+\)\)\.f1$']   # concurrent_queue::my_queue_representation: set by the constructor only
+IMM = [r'S_class_tbb__detail__d2__concurrent_queue\*\)v_\w+\)\)\.f1$']   # concurrent_queue::my_queue_representation: set by the constructor only
 UNITS = {
   # concurrent_queue<136-byte struct>: 1 item per page
   'cq1_2': dict(wrapper='w_cq.cpp', mode='lcs', unroll=1, cxxflags=['-DELEM=1'], lvalpath=True, immutable=IMM, threads=thr('vp_thr_q', 2)),
@@ -76,7 +76,7 @@ def _completable(scn):
 for _s in BQ_ONE + BQ_TWO: assert _completable(_s), 'bounded-queue scenario can block legitimately: %r' % _s
 DESC = ('2-3 threads x <=2 operations (push / try_pop) after a sequential pre-state; complete linearizability check of the invocation/response '
         'history against a FIFO queue, final drain, lane invariants, page accounting, cbmc memory safety (use after free of pages), lost hand-off (blocked-state oracle)')
-IMMB = [r'S_class_tbb__detail__d2__concurrent_bounded_queue\*\)v_\d+\)\)\.f[34]$']   # my_queue_representation, my_monitors
+IMMB = [r'S_class_tbb__detail__d2__concurrent_bounded_queue\*\)v_\w+\)\)\.f[34]$']   # my_queue_representation, my_monitors
 UNITS['bq1_2'] = dict(wrapper='w_cq.cpp', mode='lcs', unroll=1, cxxflags=['-DELEM=1', '-DBOUNDED=1'], lvalpath=True, immutable=IMMB, threads=thr('vp_thr_q', 2))
 UNITS['bq1_3'] = dict(wrapper='w_cq.cpp', mode='lcs', unroll=1, cxxflags=['-DELEM=1', '-DBOUNDED=1'], lvalpath=True, immutable=IMMB, threads=thr('vp_thr_q', 3))
 UNITS['cqx1_2'] = dict(wrapper='w_cq.cpp', mode='lcs', unroll=1, cxxflags=['-DELEM=1', '-DFAULTS=1'], exceptions=True, allow_atomic=['__clang_call_terminate'], lvalpath=True, immutable=IMM, threads=thr('vp_thr_q', 2))
@@ -130,6 +130,10 @@ HARNESSES = [
             'ticket t fails after taking it (invalid entry, no notify), the next push succeeds: its notify must release the sleeper (predicate_leq covers skipped tickets), the pop skips the invalid '
             'entry and returns the next item; nothing lost, history of the successful calls linearizable',
        bounds={'threads': 2, 'ops_per_thread': '<=2', 'capacity': 2, 'faults': '<=1 constructor exception at a solver-chosen call', 'free_rounds': 'quick 1 / thorough 2', 'forced_rounds': 2, 'spin_unroll': 1}),
+  dict(name='bq_mon_2t', unit='bqm1_2', harness='h_cq.c', defines={'NT': 2, 'ITEMS_PER_PAGE': 1, 'BOUNDED': 1, 'REALCPP': 2}, tiers=['thorough'],
+       scenarios=R(2, BQ_ONE[:2]), cbmc=CB, timeout=7200, mem_gb=10, native_cflags=NCF,
+       desc='concurrent_bounded_queue over the REAL concurrent_bounded_queue.cpp and the REAL concurrent_monitor_base / sleep_node (wait set, epoch, predicate on node contexts); only binary_semaphore::P/V and the monitor-mutex spin are stubs',
+       bounds={'threads': 2, 'ops_per_thread': 1, 'capacity': 1, 'free_rounds': 2, 'forced_rounds': 2, 'spin_unroll': 1}),
   dict(name='cq_big_3t', unit='cq1_3', harness='h_cq.c', defines={'NT': 3, 'ITEMS_PER_PAGE': 1}, tiers=['thorough'],
        scenarios=R(2, THREE_T), cbmc=CB, timeout=3600, mem_gb=8, native_cflags=NCF,
        desc='concurrent_queue<136-byte struct>, 3 threads x 1 operation: ' + DESC,
